@@ -194,31 +194,31 @@ theorem Inv.init (nc : NetCfg) : Inv nc Net.init := by
   · intro p _ m hm; simp [Net.init, voteLog] at hm
   · simpa [Net.init, voteLog] using AllGood.nil nc.powers nc.faulty
 
-/-- a correct node taking an input keeps the invariant, provided a timeout is for a round reached and
-a correctly signed vote comes from the log -/
-theorem Inv.feed {nc : NetCfg} {s : Net} (h : Inv nc s) (p : Nat) (i : Input) (hp : nc.correct p)
-    (hi : i.notFuture (s.nodes p))
-    (hin : ∀ v peer, i = .vote v peer → v.val < nc.n → v.sigOK = true →
-      voted (voteLog s.log) (v.typ == VType.precommit) v.round v.bid v.val = true) :
-    Inv nc (s.feed nc p i) := by
-  obtain ⟨new, hnew, hmi, hgood⟩ :=
-    step_spec (c := nc.node p) (me := p) rfl (voteLog s.log) (s.nodes p) i (h.node p hp) hi hin
-  have hlog : voteLog (s.feed nc p i).log = voteLog s.log ++ ownVotes p new := by
-    unfold Net.feed
-    simp only []
+/-- a correct node moving to a state that satisfies the item specification keeps the invariant -/
+theorem Inv.update {nc : NetCfg} {s : Net} (h : Inv nc s) (p : Nat) (hp : nc.correct p) (s' : NodeState)
+    (hspec : ∃ new, s'.out = (s.nodes p).out ++ new ∧ MInv (nc.node p) p (voteLog s.log ++ ownVotes p new) s' ∧
+      ∀ k (hk : k < new.length) t r x, new[k] = Output.signVote t r x →
+        GoodOut (nc.node p) (voteLog s.log ++ ownVotes p (new.take k)) ((s.nodes p).out ++ new.take k) t r x) :
+    Inv nc ⟨upd s.nodes p s', s.log ++ (s'.out.drop (s.nodes p).out.length).filterMap (outMsg p)⟩ := by
+  obtain ⟨new, hnew, hmi, hgood⟩ := hspec
+  have hlog : voteLog (s.log ++ (s'.out.drop (s.nodes p).out.length).filterMap (outMsg p)) =
+      voteLog s.log ++ ownVotes p new := by
     rw [voteLog_append, voteLog_outs, hnew]
     simp
-  have hnode : ∀ q, (s.feed nc p i).nodes q = if q = p then step (nc.node p) (s.nodes p) i else s.nodes q := by
+  have hnode : ∀ q, upd s.nodes p s' q = if q = p then s' else s.nodes q := by
     intro q; rfl
   refine ⟨?_, ?_, ?_⟩
   · intro q hq
+    show MInv _ _ (voteLog (s.log ++ _)) (upd s.nodes p s' q)
     rw [hlog, hnode]
     by_cases e : q = p
     · subst e; simpa using hmi
     · simp only [e, if_false]
       exact (h.node q hq).mono _
   · intro q hq m hm hs
+    change m ∈ voteLog (s.log ++ _) at hm
     rw [hlog] at hm
+    show ∃ t, _ ∧ _ ∈ (upd s.nodes p s' q).out
     rw [hnode]
     by_cases e : q = p
     · subst e
@@ -252,6 +252,47 @@ theorem Inv.feed {nc : NetCfg} {s : Net} (h : Inv nc s) (p : Nat) (i : Input) (h
     have := hgood a.length hk t r x e1
     rw [e2] at this
     exact this
+
+/-- the item specification for `stepItem` -/
+theorem item_spec {c : Cfg} {me : Nat} (hc : c.self = some me) (L0 : Log) (s : NodeState) (it : Item)
+    (h : MInv c me L0 s) (hi : ∀ i, it = .ext i → i.notFuture s)
+    (hin : ∀ i v peer, it = .ext i → i = .vote v peer → v.val < c.n → v.sigOK = true →
+      voted L0 (v.typ == VType.precommit) v.round v.bid v.val = true) :
+    ∃ new, (stepItem c s it).out = s.out ++ new ∧ MInv c me (L0 ++ ownVotes me new) (stepItem c s it) ∧
+      ∀ k (hk : k < new.length) t r x, new[k] = Output.signVote t r x →
+        GoodOut c (L0 ++ ownVotes me (new.take k)) (s.out ++ new.take k) t r x := by
+  have same : ∃ new, s.out = s.out ++ new ∧ MInv c me (L0 ++ ownVotes me new) s ∧
+      ∀ k (hk : k < new.length) t r x, new[k] = Output.signVote t r x →
+        GoodOut c (L0 ++ ownVotes me (new.take k)) (s.out ++ new.take k) t r x :=
+    ⟨[], by simp, by simpa [ownVotes] using h, by intro k hk; simp at hk⟩
+  by_cases hh : s.halted ∨ s.decided.isSome
+  · have e : stepItem c s it = s := by unfold stepItem; rw [if_pos hh]
+    rw [e]; exact same
+  · cases it with
+    | ext i =>
+      have e : stepItem c s (.ext i) = handleInput c s i := by unfold stepItem; rw [if_neg hh]
+      rw [e]
+      exact ext_spec hc L0 s i h (hi i rfl) (fun v peer hv => hin i v peer rfl hv)
+    | own k =>
+      cases hq : s.queue[k]? with
+      | none =>
+        have e : stepItem c s (.own k) = s := by
+          unfold stepItem handleOwn; rw [if_neg hh]; simp only [hq]
+        rw [e]; exact same
+      | some m =>
+        have e : stepItem c s (.own k) = handleInternal c { s with queue := s.queue.eraseIdx k } m := by
+          unfold stepItem handleOwn; rw [if_neg hh]; simp only [hq]
+        rw [e]
+        exact own_spec hc L0 s k m hq h
+
+/-- a correct node handling one item keeps the invariant, provided a timeout is for a round reached
+and a correctly signed vote comes from the log -/
+theorem Inv.feed {nc : NetCfg} {s : Net} (h : Inv nc s) (p : Nat) (it : Item) (hp : nc.correct p)
+    (hi : ∀ i, it = .ext i → i.notFuture (s.nodes p))
+    (hin : ∀ i v peer, it = .ext i → i = .vote v peer → v.val < nc.n → v.sigOK = true →
+      voted (voteLog s.log) (v.typ == VType.precommit) v.round v.bid v.val = true) :
+    Inv nc (s.feed nc p it) :=
+  h.update p hp _ (item_spec (c := nc.node p) (me := p) rfl (voteLog s.log) (s.nodes p) it (h.node p hp) hi hin)
 
 theorem Inv.append {nc : NetCfg} {s : Net} (h : Inv nc s) (m : Msg)
     (hm : nc.faulty m.sender = true ∨ m.ok = false) : Inv nc (s.append m) := by
@@ -296,11 +337,19 @@ theorem Inv.append {nc : NetCfg} {s : Net} (h : Inv nc s) (m : Msg)
       cases hf
 
 theorem Inv.step {nc : NetCfg} {s s' : Net} (h : Inv nc s) (hs : NetStep nc s s') : Inv nc s' := by
+  have noVote : ∀ (j : Input), (∀ v peer, j ≠ .vote v peer) →
+      ∀ i v peer, Item.ext j = .ext i → i = .vote v peer → v.val < nc.n → v.sigOK = true →
+        voted (voteLog s.log) (v.typ == VType.precommit) v.round v.bid v.val = true := by
+    intro j hj i v peer e hv
+    cases e
+    exact absurd hv (hj v peer)
   cases hs with
   | deliver p k peer hp hk =>
     apply h.feed p _ hp
-    · unfold toInput; split <;> exact True.intro
-    · intro v peer' hv h1 h2
+    · intro i e; cases e
+      unfold toInput; split <;> exact True.intro
+    · intro i v peer' e hv h1 h2
+      cases e
       unfold toInput at hv
       split at hv
       · cases hv
@@ -314,16 +363,22 @@ theorem Inv.step {nc : NetCfg} {s s' : Net} (h : Inv nc s) (hs : NetStep nc s s'
           unfold voteOf
           rw [hb, h2]
         exact voted_of_mem _ _ this
-  | block p b hp => exact h.feed p _ hp True.intro (by intro v peer hv; cases hv)
-  | claim p r t peer bid hp => exact h.feed p _ hp True.intro (by intro v peer hv; cases hv)
+  | block p b hp =>
+    exact h.feed p _ hp (by intro i e; cases e; exact True.intro) (noVote _ (by intro v peer e; cases e))
+  | claim p r t peer bid hp =>
+    exact h.feed p _ hp (by intro i e; cases e; exact True.intro) (noVote _ (by intro v peer e; cases e))
   | fire p r st hp hsch =>
     apply h.feed p _ hp
-    · show r ≤ (s.nodes p).round
+    · intro i e; cases e
+      show r ≤ (s.nodes p).round
       rcases hsch with ⟨rfl, _⟩ | hsch
       · exact Nat.zero_le _
       · exact (h.node p hp).n.sched r st hsch
-    · intro v peer hv; cases hv
-  | txs p hp => exact h.feed p _ hp True.intro (by intro v peer hv; cases hv)
+    · exact noVote _ (by intro v peer e; cases e)
+  | txs p hp =>
+    exact h.feed p _ hp (by intro i e; cases e; exact True.intro) (noVote _ (by intro v peer e; cases e))
+  | own p k hp =>
+    exact h.feed p _ hp (by intro i e; cases e) (by intro i v peer e; cases e)
   | byz m hm => exact h.append m hm
 
 theorem Inv.reachable {nc : NetCfg} {s : Net} (h : Reachable nc s) : Inv nc s := by
